@@ -1,7 +1,7 @@
 //! C05 harness: evaluation metrics (confusion matrix and its derived scores, ROC/AUC, log-loss,
 //! regression scores, silhouette, Pearson) called through the public API on arrays and datasets.
 //! Nothing is judged here: inputs come from the case, every returned value is logged as an
-//! integer-only observation `{"k": kind, "v": int}`:
+//! integer-only observation `[k, v]`:
 //!   k = "s6": v = round(x * 10^6) (|x| < 1000)      k = "s3": v = round(x * 10^3) (|x| < 10^6)
 //!   k = "s4": v = round(x * 10^4) (ln-based scores)  k = "nan" | "pinf" | "ninf" | "big" | "err"
 //! Confusion-matrix cells are private; they are read from the public `Debug` rendering.
@@ -16,7 +16,7 @@ use vh::*;
 // encoders
 
 fn tagged(k: &str, v: i64) -> Value {
-    json!({"k": k, "v": v})
+    json!([k, v])
 }
 fn nonfinite(v: f64) -> Option<Value> {
     if v.is_nan() {
@@ -95,8 +95,27 @@ fn parse_cm(dbg: &str, dec: &dyn Fn(&str) -> i64) -> (Vec<i64>, Vec<Vec<f64>>, V
     }
     (members, cells, rowm)
 }
-fn cells_json(cells: &[Vec<f64>]) -> Value {
-    Value::Array(cells.iter().map(|r| Value::Array(r.iter().map(|x| exact_int(*x)).collect())).collect())
+/// integer cells; `exact` is cleared when a printed cell is not an integer
+fn cells_int(cells: &[Vec<f64>], exact: &mut bool) -> Value {
+    Value::Array(
+        cells
+            .iter()
+            .map(|r| {
+                Value::Array(
+                    r.iter()
+                        .map(|x| {
+                            if !x.is_finite() || x.fract() != 0.0 || x.abs() > 1e9 {
+                                *exact = false;
+                                json!(-1)
+                            } else {
+                                json!(*x as i64)
+                            }
+                        })
+                        .collect(),
+                )
+            })
+            .collect(),
+    )
 }
 fn dec_bool(s: &str) -> i64 {
     match s {
@@ -105,22 +124,32 @@ fn dec_bool(s: &str) -> i64 {
         _ => -1,
     }
 }
-fn split_json(v: Vec<ConfusionMatrix<bool>>) -> Value {
+fn split_json(v: Vec<ConfusionMatrix<bool>>, exact: &mut bool) -> Value {
     Value::Array(
         v.iter()
             .map(|m| {
-                let (mem, cells, rowm) = parse_cm(&format!("{:?}", m), &dec_bool);
-                json!({"members": mem, "rowm": rowm, "cells": cells_json(&cells)})
+                let (_mem, cells, _rowm) = parse_cm(&format!("{:?}", m), &dec_bool);
+                cells_int(&cells, exact)
             })
             .collect(),
     )
 }
 
-fn cm_fields<L: Label + Display>(cm: &ConfusionMatrix<L>, dec: &dyn Fn(&str) -> i64, m: &mut Map<String, Value>, out: &mut Vec<Value>) {
+/// members and cells of one confusion matrix (one event per label type x calling form)
+fn cm_cells_event<L: Label + Display>(cm: &ConfusionMatrix<L>, dec: &dyn Fn(&str) -> i64, m: &mut Map<String, Value>) {
     let (members, cells, rowm) = parse_cm(&format!("{:?}", cm), dec);
+    let mut exact = true;
     m.insert("members".into(), json!(members));
     m.insert("rowm".into(), json!(rowm));
-    m.insert("cells".into(), cells_json(&cells));
+    m.insert("cells".into(), cells_int(&cells, &mut exact));
+    m.insert("exact".into(), json!(exact));
+}
+
+/// every score derived from a confusion matrix
+fn cm_metrics_event<L: Label + Display>(cm: &ConfusionMatrix<L>, dec: &dyn Fn(&str) -> i64, m: &mut Map<String, Value>, out: &mut Vec<Value>) {
+    let (members, _cells, _rowm) = parse_cm(&format!("{:?}", cm), dec);
+    let mut exact = true;
+    m.insert("members".into(), json!(members));
     m.insert("acc".into(), num(cm.accuracy() as f64));
     m.insert("prec".into(), num(cm.precision() as f64));
     m.insert("rec".into(), num(cm.recall() as f64));
@@ -128,16 +157,17 @@ fn cm_fields<L: Label + Display>(cm: &ConfusionMatrix<L>, dec: &dyn Fn(&str) -> 
     m.insert("fh".into(), num(cm.f_score(0.5) as f64));
     m.insert("f2".into(), num(cm.f_score(2.0) as f64));
     m.insert("mcc".into(), num(cm.mcc() as f64));
-    m.insert("ova".into(), split_json(cm.split_one_vs_all()));
+    m.insert("ova".into(), split_json(cm.split_one_vs_all(), &mut exact));
     match guarded(|| cm.split_one_vs_one()) {
         Ok(v) => {
-            m.insert("ovo".into(), split_json(v));
+            m.insert("ovo".into(), split_json(v, &mut exact));
         }
         Err(msg) => {
             m.insert("ovo".into(), json!([]));
             out.push(panic_event("split_one_vs_one", &msg));
         }
     }
+    m.insert("exact".into(), json!(exact));
 }
 
 fn cm_forms<L: Label + Display>(ty: &str, pred: &[L], truth: &[L], p: i64, dec: &dyn Fn(&str) -> i64, out: &mut Vec<Value>) {
@@ -173,19 +203,35 @@ fn cm_forms<L: Label + Display>(ty: &str, pred: &[L], truth: &[L], p: i64, dec: 
             Ok(Ok(cm)) => {
                 m.insert("ev".into(), json!("cm"));
                 match guarded(|| {
-                    let mut extra = Vec::new();
                     let mut mm = Map::new();
-                    cm_fields(&cm, dec, &mut mm, &mut extra);
-                    (mm, extra)
+                    cm_cells_event(&cm, dec, &mut mm);
+                    mm
                 }) {
-                    Ok((mm, extra)) => {
+                    Ok(mm) => {
                         for (k, v) in mm {
                             m.insert(k, v);
                         }
                         out.push(Value::Object(m));
-                        out.extend(extra);
                     }
-                    Err(msg) => out.push(panic_event("cm_metrics", &msg)),
+                    Err(msg) => out.push(panic_event("cm_debug", &msg)),
+                }
+                if form == "ar" {
+                    // the derived scores are methods of the matrix: logged once per label type
+                    match guarded(|| {
+                        let mut extra = Vec::new();
+                        let mut mm = Map::new();
+                        mm.insert("ev".into(), json!("cmm"));
+                        mm.insert("ty".into(), json!(ty));
+                        mm.insert("p".into(), json!(p));
+                        cm_metrics_event(&cm, dec, &mut mm, &mut extra);
+                        (mm, extra)
+                    }) {
+                        Ok((mm, extra)) => {
+                            out.push(Value::Object(mm));
+                            out.extend(extra);
+                        }
+                        Err(msg) => out.push(panic_event("cm_metrics", &msg)),
+                    }
                 }
             }
             Ok(Err(e)) => {
